@@ -46,6 +46,7 @@ META = {
     "note": "trusted: CPython's asyncio/concurrent.futures, the harness; histories are replayed on fresh objects, no state merging "
     "(C-implemented futures are opaque to the heap canonicaliser, so plain enumeration is used instead of hbfs.bfs)",
 }
+META["text"] += "; thread part: run() blocking on its latch while the sequence is produced on a controlled thread (default and explicit NewThreadScheduler, Subject-driven): last element / the sequence's error / SequenceContainsNoElementsError in every interleaving up to the preemption bound"
 RULE = (
     "cases = all histories of <=D events (from_future: subscribe/dispose/resolve/fail/cancel/loop-step over 3 future kinds x 2 "
     "entry points) + all outcome combinations listed in the module docstring; non-trivial = some observer/future/caller received "
